@@ -39,7 +39,7 @@ def fake_ssh_dir(base):
 
 
 def read_log(path):
-    out = {'key': None, 'frames': {0: [], 1: []}, 'applied': False, 'not_applied': False, 'doer_exit': None, 'closed': None}
+    out = {'key': None, 'frames': {0: [], 1: []}, 'applied': False, 'not_applied': False, 'doer_exit': None, 'closed': None, 'identical': False}
     try:
         lines = open(path).read().splitlines()
     except OSError:
@@ -57,6 +57,8 @@ def read_log(path):
             out['applied'] = True
         elif 'not_applied' in o:
             out['not_applied'] = True
+        elif 'identical' in o:
+            out['identical'] = True
         elif 'doer_exit' in o:
             out['doer_exit'] = o['doer_exit']
         elif 'closed' in o:
@@ -90,17 +92,24 @@ def run_sync(binary, base, name, placement, plan):
     before = e2e.snapshot(dest)
     logf, cmdlog = os.path.join(d, 'mitm.jsonl'), os.path.join(d, 'cmds.log')
     env = {'MITM_PLAN': json.dumps(plan), 'MITM_LOG': logf, 'MITM_DOER_CMD_LOG': cmdlog, 'MITM_GRACE': '2'}
+    both = None
     if placement == 'both_remote':
         sd = os.path.join(d, 'sessions'); os.makedirs(sd)
         env['MITM_SESSION_DIR'] = sd
         k = plan.get('session', 0)
-        logf, cmdlog = logf + '.%d' % k, cmdlog + '.%d' % k
+        both = [(logf + '.%d' % j, cmdlog + '.%d' % j) for j in (0, 1)]
+        logf, cmdlog = both[k]
     a = ('localhost:' if placement in ('src_remote', 'both_remote') else '') + src + '/'
     b = ('localhost:' if placement in ('dest_remote', 'both_remote') else '') + dest + '/'
     r = e2e.run_cli(binary, [a, b], env=env, timeout=40, fake_ssh=fake_ssh_dir(d))
     cmds = read_cmds(cmdlog)
-    return {'result': r, 'log': read_log(logf), 'cmds': cmds, 'src': e2e.snapshot(src), 'before': before, 'after': e2e.snapshot(dest),
-            'src_path': src, 'dest_path': dest}
+    out = {'result': r, 'log': read_log(logf), 'cmds': cmds, 'src': e2e.snapshot(src), 'before': before, 'after': e2e.snapshot(dest),
+           'src_path': src, 'dest_path': dest}
+    if both:
+        # session 0 = the launch for the source (the boss sets the source up first), session 1 = the destination
+        out['logs'] = [read_log(lf) for lf, _ in both]
+        out['cmds_by_session'] = [read_cmds(cf) for _, cf in both]
+    return out
 
 
 def kinds_of(binary, key, frames, d):
@@ -207,6 +216,92 @@ def judge_run(run, binary, placement, plan, base_kinds, n_frames, out, label):
     run.traces_validated += 1
 
 
+def cross_open_oracle(run, binary, logs):
+    """Where the keys are visible (the fake ssh saw both key lines of a both-remote run): the two links must not
+    share a key, and no frame captured on one link may open under the other link's key at its own position
+    (frame i of direction d is expected under counter d + 2i) - "accepted only if produced with the session's
+    secret key for exactly this position in this direction of the stream"."""
+    k0, k1 = logs[0]['key'], logs[1]['key']
+    if k0 and k1 and k0.strip().lower() == k1.strip().lower():
+        return ('the two boss-doer links of one run (source and destination both remote) use the same key %s: frame i of '
+                'one link is sealed under the same (key, nonce) as frame i of the other' % k0)
+    lines, meta = [], []
+    for a in (0, 1):
+        key = logs[1 - a]['key']
+        for d in (0, 1):
+            for i, f in enumerate(logs[a]['frames'][d][:24]):
+                lines.append('O %s %d %d %s' % (key, d + 2 * i, d, fl.hx(f[8:])))
+                meta.append((a, d, i))
+    out = vlib.harness(binary, 'frames', lines) if lines else []
+    for (a, d, i), l in zip(meta, out):
+        run.count('e2e-cross-open-tried')
+        if l != 'O none':
+            return ('frame %d of direction %d captured on link %d opens under the key of link %d at the same position (%s): '
+                    'it would be accepted there' % (i, d, a, 1 - a, l))
+    return None
+
+
+def cross_link_leg(run, binary, base, tier):
+    """Source and destination both remote: two links in one run.  The man in the middle delivers frame i of
+    direction d of one link in place of frame i of direction d of the other link.  The receiver must fail the
+    connection and nothing of the foreign frame may be acted upon."""
+    pl = 'both_remote'
+    b = run_sync(binary, base, 'base_cross', pl, {'op': 'none', 'session': 0})
+    r, logs = b['result'], b.get('logs') or []
+    ok = (r['exit'] == 0 and not r['timed_out'] and {k: v[:3] for k, v in b['after'].items()} == {k: v[:3] for k, v in b['src'].items()}
+          and len(logs) == 2 and all(l['key'] and l['frames'][0] and l['frames'][1] for l in logs))
+    run.count('e2e-baseline:%s/cross' % pl)
+    run.case(('e2e-baseline', pl, 'cross'), True, sample={'case': {'leg': 'e2e', 'placement': pl, 'plan': 'none'},
+             'impl': 'exit=%s frames=%s' % (r['exit'], [[len(l['frames'][0]), len(l['frames'][1])] for l in logs])})
+    if not ok:
+        run.broke('correspondence', 'e2e-baseline', json.dumps({'placement': pl, 'leg': 'cross', 'exit': r['exit'], 'timed_out': r['timed_out'],
+                                                                'stderr': r['stderr'][-1500:], 'keys': [l['key'] for l in logs]}))
+        return
+    run.traces_validated += 1
+    for k, l in enumerate(logs):
+        bad = nonce_oracle(run, binary, l, pl)
+        if bad:
+            run.fail('C10 nonce reuse: ' + bad, {'leg': 'e2e-nonce', 'placement': pl, 'session': k})
+            return
+    run.count('e2e-keys-of-two-links:' + ('same' if logs[0]['key'] == logs[1]['key'] else 'different'))
+    bad = cross_open_oracle(run, binary, logs)
+    if bad:
+        run.fail('C10 e2e (two links of one run): ' + bad, {'leg': 'e2e-cross', 'placement': pl, 'plan': {'op': 'none', 'session': 0},
+                                                              'keys': [l['key'] for l in logs]})
+        # go on: the splice below shows the consequence on the real doer
+    ns = [{0: len(l['frames'][0]), 1: len(l['frames'][1])} for l in logs]
+    run.extra.setdefault('e2e_frames_per_direction', {})['both_remote/cross'] = ns
+    idxs = [0, 1, 2, 3] if tier == 'quick' else list(range(0, 8))
+    jobs = []
+    for sess in (0, 1):
+        for d in (0, 1):
+            for i in idxs:
+                if i < min(ns[0][d], ns[1][d]) - 1:
+                    jobs.append((sess, d, i, {'dir': d, 'index': i, 'op': 'cross', 'session': sess, 'wait': 1.5}))
+
+    def one(job):
+        sess, d, i, plan = job
+        return job, run_sync(binary, base, 'cross%d_%d_%d' % (sess, d, i), pl, plan)
+    with ThreadPoolExecutor(max_workers=min(12, vlib.NPROC)) as ex:
+        results = list(ex.map(one, jobs))
+    applied_b2d = 0
+    for (sess, d, i, plan), out in results:
+        log = out['log']
+        if log['applied'] and d == 0:
+            applied_b2d += 1
+        if log['applied'] and log['identical']:
+            run.fail('C10 e2e (two links of one run): frame %d of direction %d is the same ciphertext on both links - the same plaintext '
+                     'sealed under the same key and nonce twice' % (i, d), {'leg': 'e2e-cross', 'placement': pl, 'plan': plan})
+            run.count('e2e:%s:cross-identical' % pl)
+            shutil.rmtree(os.path.dirname(out['src_path']), ignore_errors=True)
+            continue          # (the delivered stream does not deviate from the honest one: nothing more to judge)
+        judge_run(run, binary, pl, plan, None, ns[sess], out, 'cross')
+        shutil.rmtree(os.path.dirname(out['src_path']), ignore_errors=True)
+    run.extra['e2e_cross_link_applied_boss_to_doer'] = applied_b2d
+    if applied_b2d == 0:
+        run.broke('correspondence', 'e2e-cross-link-vacuous', 'no boss->doer frame of one link could be delivered on the other link (%d runs)' % len(jobs))
+
+
 def wrong_key_leg(run, binary, base):
     """A doer started directly with a known key; the peer does not hold it."""
     rng = run.rng
@@ -274,6 +369,7 @@ def run_e2e(run, binary, tier):
     base = tempfile.mkdtemp(prefix='c10e2e_', dir=vlib.CACHE)
     try:
         wrong_key_leg(run, binary, base)
+        cross_link_leg(run, binary, base, tier)
         forged = fl.unhx(fl.kv(vlib.harness(binary, 'frames', ['S %s 0 0 1 z:5:40:9' % ('5a' * 16)])[0])['wire']).hex()
         placements = [('dest_remote', 0), ('src_remote', 0)] + ([('both_remote', 0), ('both_remote', 1)] if tier == 'thorough' else [])
         for pl, sess in placements:
@@ -321,6 +417,8 @@ def replay_e2e(run, binary, r):
     try:
         if r.get('leg') == 'doer-direct':
             wrong_key_leg(run, binary, base)
+        elif r.get('leg') == 'e2e-cross' or (r.get('plan') or {}).get('op') == 'cross':
+            cross_link_leg(run, binary, base, run.tier)
         else:
             pl = r.get('placement', 'dest_remote')
             b = run_sync(binary, base, 'base', pl, {'op': 'none'})
